@@ -36,8 +36,10 @@ Oracles.
   reported as an arithmetic error); class = ``single_step_rollout`` (T = 1) / ``bootstrap_segment`` (all disagreeing cells
   lie after the last interior episode end of their sequence, i.e. only the handling of next_value / next_done can be
   wrong) / ``recursion``.  ``returns``: returns[i] = advantages[i] + values[i] of the same row.
-* ``rows``: the cells decoded from actions / log_probs / values of a row must be the cell decoded from its observation,
-  and the advantage must be the one of that cell; the signature lists the columns that belong to another cell.
+* ``rows``: the cells decoded from actions / log_probs / values of a row must be the cell decoded from its observation;
+  the signature lists the columns that belong to another cell.  ``advantage`` is listed when advantages are correct
+  estimates sitting in rows other than those of their own values (an advantage that follows a displaced value is
+  implied by ``value``, so the signature does not depend on whether the arithmetic is right as well).
 * ``minibatch``: what the sampler hands to the loss is exactly the selected rows of the flattened batch.
 * ``noleak`` (metamorphic): per sequence with an episode start s (interior stored done, or final next_done), rewards and
   values at steps >= s and the final next observation are replaced; advantages of steps < s must be numerically
@@ -468,14 +470,20 @@ def check_block(ctx, L, rd, members, block, A_ref, M_ref, sig, details, who):
     obs_cell, val_cell, lp_cell = d["obs_cell"], d["val_cell"], d["lp_cell"]
     est_cell = np.where(val_cell >= 0, val_cell, obs_cell)
     want_est = np.array([A_ref[cells[j]] for j in est_cell])
-    want_obs = np.array([A_ref[cells[j]] for j in obs_cell])
     tol_est = REL * np.maximum(1.0, np.array([M_ref[cells[j]] for j in est_cell]))
-    tol_obs = REL * np.maximum(1.0, np.array([M_ref[cells[j]] for j in obs_cell]))
     gae_ok = np.abs(d["adv"] - want_est) <= tol_est
-    adv_at_obs_ok = np.abs(d["adv"] - want_obs) <= tol_obs
 
     # ---- the estimate is the GAE of the cell its value column belongs to ------------------------------------------
+    adv_elsewhere = np.zeros(n, dtype=bool)
     if not gae_ok.all():
+        # correct estimates in the wrong rows (every disagreeing one is the reference of another cell of this policy) are
+        # a row mix-up, reported by the rows clause below; anything else is an arithmetic disagreement
+        bad = np.flatnonzero(~gae_ok)
+        all_ref = np.array([A_ref[c] for c in cells])
+        all_tol = REL * np.maximum(1.0, np.array([M_ref[c] for c in cells]))
+        if all((np.abs(d["adv"][i] - all_ref) <= all_tol).any() for i in bad):
+            adv_elsewhere[bad] = True
+    if not (gae_ok | adv_elsewhere).all():
         bad = np.flatnonzero(~gae_ok)
         if rd.T == 1:
             cls = "single_step_rollout"
@@ -503,12 +511,13 @@ def check_block(ctx, L, rd, members, block, A_ref, M_ref, sig, details, who):
         ctx.fail(f"{sig}/rows/value_not_of_this_rollout", f"{who}: a flattened row holds a value that no cell of this policy's agents had",
                  row=int(np.flatnonzero(val_cell < 0)[0]), **details)
     wrong = {"action": ~d["act_ok"], "log_prob": lp_cell != obs_cell, "value": val_cell != obs_cell,
-             "advantage": ~adv_at_obs_ok & gae_ok}
+             "advantage": adv_elsewhere}  # (an advantage that merely sits in the row of its own value is implied by "value")
     mis = sorted(k for k, v in wrong.items() if v.any())
     if mis:
         i = int(np.flatnonzero(np.any([wrong[k] for k in mis], axis=0))[0])
         ctx.fail(f"{sig}/rows/{'+'.join(mis)}_of_another_cell{shared}",
-                 f"{who}: in the flattened batch a row's {', '.join(mis)} belong(s) to a different (agent, env, step) than the row's observation",
+                 f"{who}: in the flattened batch a row's {', '.join(mis)} belong(s) to a different (agent, env, step) than the row's observation"
+                 + (" (advantages and returns sit in the rows of their values)" if "value" in mis and "advantage" not in mis else ""),
                  row=i, observation_cell=cell_json(cells[obs_cell[i]]),
                  log_prob_cell=cell_json(cells[lp_cell[i]]) if lp_cell[i] >= 0 else None,
                  value_cell=cell_json(cells[val_cell[i]]) if val_cell[i] >= 0 else None,
@@ -762,20 +771,34 @@ def _grid_rollouts(K, rng, shapes):
 SHAPES = [(1, 1), (1, 3), (2, 1), (2, 2), (3, 2), (4, 3), (8, 4), (5, 2)]
 
 
-def ppo_grid(tier):
-    for i, act in enumerate(["discrete", "box", "multidiscrete", "box1"]):
+def _grid(tier, algo):
+    """one single-rollout case per (learner configuration, corner shape), smallest rollouts first - the first grid case that
+    shows a defect is then already close to minimal (enumerated cases are not shrunk)"""
+    if algo == "PPO":
+        learners = [{"algo": "PPO", "obs": o, "act": a} for o, a in
+                    zip(["vector", "image", "dict", "vector4"], ["discrete", "box", "multidiscrete", "box1"])]
+    else:
+        learners = [{"algo": "IPPO", "obs": o, "act": a, "groups": g, "order": "interleaved" if i % 2 else "grouped"}
+                    for i, (o, a, g) in enumerate(zip(["vector", "vector4", "vector", "dict", "image", "vector"],
+                                                      ["discrete", "box", "multidiscrete", "box1", "box", "discrete"],
+                                                      [[1], [2], [3], [2, 1], [1, 3], [2, 2]]))]
+    cases = []
+    for i, ln in enumerate(learners):
         rng = np.random.default_rng([_env_seed(), 17, i])
-        yield {"algo": "PPO", "obs": ["vector", "image", "dict", "vector4"][i], "act": act, "wseed": int(rng.integers(0, 9999)),
-               "rollouts": _grid_rollouts(1, rng, SHAPES)}
+        K = sum(ln.get("groups", [1]))
+        wseed = int(rng.integers(0, 9999))
+        for ro in _grid_rollouts(K, rng, SHAPES):
+            cases.append(dict(ln, wseed=wseed, rollouts=[ro]))
+    cases.sort(key=lambda c: (c["rollouts"][0]["T"] * c["rollouts"][0]["E"] * sum(c.get("groups", [1])), c["rollouts"][0]["T"]))
+    return cases
+
+
+def ppo_grid(tier):
+    return _grid(tier, "PPO")
 
 
 def ippo_grid(tier):
-    for i, groups in enumerate([[1], [2], [3], [2, 1], [1, 3], [2, 2]]):
-        rng = np.random.default_rng([_env_seed(), 71, i])
-        yield {"algo": "IPPO", "obs": ["vector", "vector4", "vector", "dict", "image", "vector"][i],
-               "act": ["discrete", "box", "multidiscrete", "box1", "box", "discrete"][i], "groups": groups,
-               "order": "interleaved" if i % 2 else "grouped", "wseed": int(rng.integers(0, 9999)),
-               "rollouts": _grid_rollouts(sum(groups), rng, SHAPES)}
+    return _grid(tier, "IPPO")
 
 
 PROPERTY = Property(
@@ -793,11 +816,11 @@ PROPERTY = Property(
           "ctx.nontrivial is called per rollout"),
     obligations=[
         Obligation("ppo_gae_rows", run_case, strategy=ppo_strategy, enumerate=ppo_grid,
-                   examples={"quick": 14, "thorough": 150}, shards={"quick": 5, "thorough": 16},
-                   shrink_budget={"quick": 40, "thorough": 300}),
+                   examples={"quick": 40, "thorough": 150}, shards={"quick": 5, "thorough": 16},
+                   shrink_budget={"quick": 25, "thorough": 300}),
         Obligation("ippo_gae_rows", run_case, strategy=ippo_strategy, enumerate=ippo_grid,
-                   examples={"quick": 14, "thorough": 150}, shards={"quick": 5, "thorough": 16},
-                   shrink_budget={"quick": 40, "thorough": 300}),
+                   examples={"quick": 40, "thorough": 150}, shards={"quick": 5, "thorough": 16},
+                   shrink_budget={"quick": 25, "thorough": 300}),
     ],
     assumptions=[
         "stored dones[t] is the done flag produced by step t-1 (dones[0] = 0), next_done the one produced by the last step - as "
